@@ -40,6 +40,7 @@ type wInterp struct {
 	objects  int
 	steps    int
 	hook     func(name string, c *ast.CallExpr) (wv, bool)
+	depth    int // nesting of helper interpretations
 	// for type switches: the dynamic type of the switched value and the value bound in the chosen clause
 	dynType  types.Type
 	dynValue wv
